@@ -258,10 +258,11 @@ class SkoolParser:
                             self._instructions[address].append(instruction)
                         map_entry.add_instruction(instruction)
 
+                gone = address in removed
                 self.mode.apply_asm_directives(self.snapshot, instruction, map_entry, self._instructions, address_comments, removed)
                 self.ignores.clear()
 
-                if address is not None:
+                if address is not None and not gone:
                     assemble = self.utility.set_byte_values(instruction, self.mode.assemble)
                     if assemble:
                         if instruction.bytes:
